@@ -26,7 +26,18 @@ def add(g, a, b):
     return g.node("Add", [a, b], lambda x, y: x + y)
 
 
+def _maybe_swap(g, a, b):
+    """Near-miss for every family: now and then the operands of a non-commutative
+    operator are exchanged (x - c -> c - x, x / c -> c / x, x ** c -> c ** x)."""
+    prob = getattr(g, "swap_prob", 0)
+    if prob and g.rng.chance(1, prob):
+        g.swapped = getattr(g, "swapped", 0) + 1
+        return b, a
+    return a, b
+
+
 def sub(g, a, b):
+    a, b = _maybe_swap(g, a, b)
     return g.node("Sub", [a, b], lambda x, y: x - y)
 
 
@@ -41,7 +52,9 @@ def div(g, a, b):
                 raise Invalid("div by zero")
             q = np.abs(x.astype(np.int64)) // np.abs(y.astype(np.int64))
             return (q * np.sign(x.astype(np.int64)) * np.sign(y.astype(np.int64))).astype(x.dtype)
-        return (x / y).astype(x.dtype)
+        with np.errstate(all="ignore"):
+            return (x / y).astype(x.dtype)
+    a, b = _maybe_swap(g, a, b)
     return g.node("Div", [a, b], ref)
 
 
@@ -50,7 +63,12 @@ def unary(g, op, x, fn, attrs=None):
 
 
 def powc(g, x, c):
-    return g.node("Pow", [x, c], lambda a, b: np.power(a.astype(np.float64), b.astype(np.float64)).astype(np.float32))
+    x, c = _maybe_swap(g, x, c)
+
+    def ref(a, b):
+        with np.errstate(all="ignore"):
+            return np.power(a.astype(np.float64), b.astype(np.float64)).astype(np.float32)
+    return g.node("Pow", [x, c], ref)
 
 
 def reduce_mean(g, x, axes, keepdims=1, as_input=None):
@@ -123,7 +141,11 @@ def cast(g, x, to):
 
 
 def new_builder(rng, opset=17):
-    return GraphBuilder(rng, opset=opset, mode="dag", reuse_prob=(0, 1))
+    g = GraphBuilder(rng, opset=opset, mode="dag", reuse_prob=(0, 1))
+    # In a third of the graphs each non-commutative operator has a 1-in-6 chance
+    # of getting its operands exchanged.
+    g.swap_prob = 6 if rng.chance(1, 3) else 0
+    return g
 
 
 def data_input(g, rng, shape, dt="f32", symbolic=None, **kw):
@@ -315,15 +337,16 @@ def fam_layernorm(rng):
 
 def fam_matmul_add_scale(rng):
     m, k, n = 2, 3, 4
-    for bias_shape, scale_pos, scale_op, sshape, sval in itertools.product(
-            [(n,), (1, n), (m, n), (m, 1), (), None], ["none", "lhs", "rhs", "out", "lhs+out"], ["Mul", "Div"], CONST_SHAPES, [0.5, 1.0]):
-        if rng.chance(2, 3):
+    for bias_shape, scale_pos, scale_op, sshape, sval, side in itertools.product(
+            [(n,), (1, n), (m, n), (m, 1), (), None], ["none", "lhs", "rhs", "out", "lhs+out"], ["Mul", "Div"], CONST_SHAPES, [0.5, 1.0, 2.0], ["right", "left"]):
+        if rng.chance(5, 6):
             continue
         g = new_builder(rng)
         a = data_input(g, rng, (m, k), symbolic=[rng.bool(), False])
         b = data_input(g, rng, (k, n)) if rng.bool() else g.add_init("f32", rng.array("f32", (k, n)))
         sc = lambda: g.add_init("f32", np.full(sshape, sval, dtype=np.float32))
-        sop = mul if scale_op == "Mul" else div
+        sop0 = mul if scale_op == "Mul" else div
+        sop = sop0 if side == "right" else (lambda g, v, c: sop0(g, c, v))
         aa, bb = a, b
         if "lhs" in scale_pos:
             aa = sop(g, a, sc())
@@ -336,7 +359,7 @@ def fam_matmul_add_scale(rng):
             bias = g.add_init("f32", rng.array("f32", bias_shape))
             y = add(g, y, bias) if rng.bool() else add(g, bias, y)
         yield g, {"bias_shape": None if bias_shape is None else list(bias_shape), "scale_pos": scale_pos, "scale_op": scale_op,
-                  "scale_shape": list(sshape), "scale": sval}, [y]
+                  "scale_shape": list(sshape), "scale": sval, "scale_side": side}, [y]
 
 
 def fam_matmul_integer_float(rng):
@@ -583,6 +606,8 @@ def gen_patterns(seed, rounds):
             try:
                 for g, variant, outs in fam(rng):
                     k += 1
+                    if getattr(g, "swapped", 0):
+                        variant = dict(variant, operands_swapped=g.swapped)
                     try:
                         rec = finish(g, rng, f"pat-{name}-{seed}-{r}-{k}", name, variant, outs)
                     except Invalid:
